@@ -1,6 +1,6 @@
 (* C10 -- property theorems only.  Proofs live in C10/Proofs1.v, Proofs2.v. *)
 From Coq Require Import NArith List Permutation.
-From DV Require Import Base.Outcome C10.Gen C10.Model C10.Proofs1 C10.Proofs2 C10.Proofs3 C10.Proofs4 C10.Proofs5 C10.Proofs6 C10.Proofs7 C10.Proofs8 C10.Proofs9 C10.Proofs10.
+From DV Require Import Base.Outcome C10.Gen C10.Model C10.Proofs1 C10.Proofs2 C10.Proofs3 C10.Proofs4 C10.Proofs5 C10.Proofs6 C10.Proofs7 C10.Proofs8 C10.Proofs9 C10.Proofs10 C10.ProofsK.
 From DV Require C09.Gen C09.Model C09.Proofs C17.Gen C17.Model.
 Import ListNotations.
 Local Open Scope N_scope.
@@ -401,3 +401,54 @@ Theorem C10_batch_diff_is_reported : forall pub body s t,
   snd (d_commit (batch_end (body, s, t) pub)) = last (c10_diff pub (body ++ [DFinish s t])) None.
 Proof. exact batch_diff_is_reported. Qed.
 Print Assumptions C10_batch_diff_is_reported.
+
+(* ---- single-message faults at any position of any stream (ProofsK) ---- *)
+Theorem C10_corrupt_header_anywhere : forall m ms1 ms2 st,
+  (forall first, check_response first (m_hdr m) = true) ->
+  fst (run st (ms1 ++ m :: ms2)) = fst (run st ms1) /\
+  exists e, snd (run st (ms1 ++ m :: ms2)) = SErr e.
+Proof. exact corrupt_header_anywhere. Qed.
+Print Assumptions C10_corrupt_header_anywhere.
+
+Theorem C10_header_fault_both : forall m,
+  existsb (fun t => check_cond t (m_hdr m)) check_tags = true ->
+  forall first, check_response first (m_hdr m) = true.
+Proof. exact header_fault_both. Qed.
+Print Assumptions C10_header_fault_both.
+
+Theorem C10_bad_record_anywhere : forall m pre post ms1 ms2 st,
+  m_items m = pre ++ Bad :: post ->
+  run st (ms1 ++ m :: ms2) = run st (ms1 ++ [m]) /\
+  exists e, snd (run st (ms1 ++ m :: ms2)) = SErr e.
+Proof. exact bad_record_anywhere. Qed.
+Print Assumptions C10_bad_record_anywhere.
+
+Theorem C10_rejected_message_cuts_stream : forall m, rejecting m -> forall ms1 ms2 st,
+  run st (ms1 ++ m :: ms2) = run st (ms1 ++ [m]) /\
+  exists e, snd (run st (ms1 ++ m :: ms2)) = SErr e.
+Proof. exact run_cut_at_rejecting. Qed.
+Print Assumptions C10_rejected_message_cuts_stream.
+
+Theorem C10_rejected_message_never_done : forall m ms1 ms2 st,
+  rejecting m ->
+  snd (run st (ms1 ++ m :: ms2)) <> SDone /\ snd (run st (ms1 ++ m :: ms2)) <> SIncomplete.
+Proof. exact rejecting_never_done. Qed.
+Print Assumptions C10_rejected_message_never_done.
+
+Theorem C10_prefix_updates_delivered : forall m ms1 ms2 st us,
+  run st ms1 = (us, SIncomplete) ->
+  exists us', fst (run st (ms1 ++ m :: ms2)) = us ++ us'.
+Proof. exact run_prefix_updates. Qed.
+Print Assumptions C10_prefix_updates_delivered.
+
+Theorem C10_visible_is_last_commit : forall us1 us2 st st',
+  u_apply_all updater_checks_batch_soa (us1 ++ us2) st = Ok st' ->
+  forallb (fun u => negb (is_commit u)) us2 = true ->
+  exists st1, u_apply_all updater_checks_batch_soa us1 st = Ok st1 /\ u_visible st' = u_visible st1.
+Proof. exact (visible_is_last_commit updater_checks_batch_soa). Qed.
+Print Assumptions C10_visible_is_last_commit.
+
+Theorem C10_finished_is_terminal : forall u us st,
+  u_fin st = true -> u_apply_all updater_checks_batch_soa (u :: us) st = Err E_Finished.
+Proof. exact (finished_is_terminal updater_checks_batch_soa). Qed.
+Print Assumptions C10_finished_is_terminal.
